@@ -15,13 +15,13 @@ CHECKS = {
          "every execution (<= B deviations) of 1-3 concurrent calls over cloned handles against the real RequestDispatch: each success carries a token the peer sent for that call's own id, no token reaches two calls, ids never repeat, and removing a stray reply leaves outcomes and wire unchanged", "5/C01", "mc"),
  "C02": ("model_checking", "stateless deviation-bounded DFS with wake-only polling; quiescence oracles at frozen and final clock",
          "tasks are polled only after their waker fired - each poll hands over a fresh waker and only the latest counts -, so a lost wakeup is a reachable stuck state; the shipped in-memory transports are driven through all two-way histories with wake obligations; all executions within the bound end with every call resolved and no enabled work left undone", "5/C02", "mc"),
- "C03": ("model_checking", "stateless deviation-bounded DFS incl. parking inside the call guard's drop (yield hooks)",
+ "C03": ("model_checking", "stateless deviation-bounded DFS incl. parking inside the call guard's drop (yield hooks); exhaustive size sweep (one abandonment among n calls in flight, n = 1..130 and around hash-table-full sizes)",
          "abandonment at every suspension point x parking between close() and cancel() x capacity/transport states x peer policy; wire-level rules R1-R4 on every execution", "5/C03", "mc"),
  "C04": ("model_checking", "stateless deviation-bounded DFS over cancel position x handler stage x limit x sink state on the real server channel; differential rerun for stray cancels",
          "after the channel poll that read Cancel(id) for a tracked request its handler is never polled again, is dropped by quiescence, no response follows, in_flight excludes it; cancels for unknown/finished ids change nothing (requests and execute routes)", "5/C04", "mc"),
  "C05": ("model_checking", "stateless deviation-bounded DFS over schedules and virtual-clock steps {D-1ms, D, D+1ms}",
          "deadline grid x clock stepping x reply/timer order x queueing on the real dispatch with a hooked virtual clock: never early, reply-before-deadline wins, resolved once D+1ms has passed", "5/C05", "mc"),
- "C06": ("model_checking", "stateless deviation-bounded DFS over deadline grid x virtual-clock steps x handler completion order x limit x blocked sink",
+ "C06": ("model_checking", "stateless deviation-bounded DFS over deadline grid x virtual-clock steps x handler completion order (values and rejections) x limit x blocked sink; exhaustive size sweeps of n expirations (hand-driven, spawned, spawned with distinct deadlines and a queued response)",
          "handlers are never aborted before their deadline; once a channel poll has run at >= D+1ms the handler makes no progress and nothing is sent for it; other requests untouched", "5/C06", "mc"),
  "C07": ("exploration", "exhaustive grid over chain depth x transport assignment x remaining duration x transit delay x subscriber regime on real client/server hops with a hooked virtual clock (exact arithmetic)",
          "handler-observed deadline == caller's deadline + transit exactly (serde hops) / == caller's Instant (in-memory), never earlier, never beyond accumulated transit, already-passed arrives as the receive instant, nested calls carry the handler's context, omitted deadline = +10s", "5/C07", "mc"),
@@ -29,13 +29,13 @@ CHECKS = {
          "one offer per request read unless its id is tracked; at most one response per request instance, only after its handler finished and before cancel/drop; every response matches a request read on the channel", "5/C08", "mc"),
  "C09": ("fault_enumeration", "exhaustive fault-plan enumeration over every transport call of every <=1-deviation base execution (one-shot, sticky, EOF), replayed on the real client dispatch and server channel",
          "for every base and every k-th poll_ready/start_send/poll_flush/poll_close/poll_next: activity-tagged error, outstanding calls fail with a connection error, per-request send failure contained, nothing hangs, no panic; server stream reports the activity, handlers aborted on drop", "5/C09", "mc"),
- "C10": ("model_checking", "stateless deviation-bounded DFS over handle drops, peer close and abandonment",
+ "C10": ("model_checking", "stateless deviation-bounded DFS over handle drops, peer close and abandonment; exhaustive size sweep of the shutdown drain on a spawned dispatch (n = 1..140 calls x replies x unsent calls, tokio's cooperative budget on)",
          "handle drop / peer close at every step: owed cancels precede the single close, nothing after close, prompt stop on EOF with all calls failing", "5/C10", "mc"),
  "C11": ("model_checking", "stateless deviation-bounded DFS with in-flight/timer accessors after every dispatch poll",
          "tracked count bounded by the configured maximum and by the wire-derived count at every poll; zero entries and zero timers at frozen-clock quiescence once all calls ended, over runs that reuse slots", "5/C11", "mc"),
  "C12": ("model_checking", "stateless deviation-bounded DFS over L in 0..3 x arrivals/cancels/duplicates x completion and write order x sink state against a counting reference model",
          "a request is handed over only below the limit, refused (exactly one WouldBlock reply, never executed) only at the limit, duplicates ignored", "5/C12", "mc"),
- "C13": ("model_checking", "explicit-state breadth-first search over all event histories of the real MaxChannelsPerKey (replayed from scratch), incl. a listener poll inside the tracker's drop",
+ "C13": ("model_checking", "explicit-state breadth-first search over all event histories of the real MaxChannelsPerKey (replayed from scratch), incl. a listener poll inside the tracker's drop; scripted families beyond the search depth (many keys, revivals under a backlog of close notices, spawn_incoming resets)",
          "every history up to the depth over {arrive a, arrive b, poll, close i, close i with nested poll at the yield point} for n in {1,2} agrees with a per-key counter at every admission decision", "5/C13", "mc"),
  "C14": ("model_checking", "stateless deviation-bounded DFS over four transport shapes (always ready, socket-like, bounded-queue-like, own buffer freed by flush) with a Sink-contract monitor on the call log",
          "ready-before-send, no write after close/error, no idle with unflushed items, no retry inside one poll, on every execution within the bound", "5/C14", "mc"),
@@ -47,7 +47,7 @@ CHECKS = {
          "request and cancel trace fields on the wire for every schedule incl. cancellation at every point", "5/C18", "mc"),
  "C17": ("exploration", "exhaustive enumeration over a grid of programs (service definitions; pairwise cover in quick, cover + 900 grid points in thorough), each compiled with the real macro and executed over a real client/server pair, without a subscriber and under a tracing-opentelemetry layer",
          "for every accepted definition and every method: exactly one invocation of that method with the arguments in order and the request's context, the right value back, RequestName '<Service>.<method>'; collision candidates are rejected at compile time or behave", "5/C17", "macro_grid"),
- "C19": ("exploration", "exhaustive enumeration of hook nestings (<=3 wrappers, 259 generic instantiations) x behaviour assignments against a reference interpreter",
+ "C19": ("exploration", "exhaustive enumeration of hook nestings (<=3 wrappers, 259 generic instantiations) x behaviour assignments against a reference interpreter; end-to-end grid through execute on a real channel + a real client (failing stage x error-detail length)",
          "for every nesting and every assignment of before/after/handler behaviours the invocation log (order, context seen, result seen) and the final Result equal the reference interpreter's", "5/C19", "mc"),
  "C20": ("exploration", "exhaustive grids over backends x call sequences x clone patterns x first-poll orders x hashers x retry tables; loom (preemption-bounded exhaustive interleavings) on the extracted round-robin cursor module",
          "round robin balanced at every prefix incl. across clones and concurrent first polls, and under every thread interleaving within the loom bound; consistent hash valid and stable for boundary hashers; retry passes the identical request, attempts 1,2,3.. and the last result", "5/C20", "mc + mc-loom"),
